@@ -107,4 +107,28 @@ def occurrenceOk (payload occ : Str) : Option Chain :=
 def occurrenceOkAny (payloads : List Str) (occ : Str) : Bool :=
   payloads.any fun p => (occurrenceOk p occ).isSome
 
+/-! ## "rendering never fails for any search result": the fragments of a search result
+
+What the searcher guarantees about the fragments of a line (property C02: match ranges are real, ordered and do not
+overlap): offsets are non-negative, each fragment lies inside the line, and they are sorted and disjoint. -/
+
+def fragsWF (n : Nat) : Int → List Frag → Bool
+  | _, [] => true
+  | lastEnd, f :: rest =>
+    decide (lastEnd ≤ f.off) && decide (0 ≤ f.len) && decide (f.off + f.len ≤ (n : Int)) && fragsWF n (f.off + f.len) rest
+
+/-- the displayed pieces tile the line: starting at `pos`, `Pre ++ Match` of each fragment and the final `Post` cover
+    `[pos, n)` without gap or overlap — the snippet shows exactly the line -/
+def tiles (n : Nat) : Nat → List Piece → Bool
+  | _, [] => true
+  | pos, [p] => decide (p.preLo = pos) && decide (p.preLo ≤ p.lo) && decide (p.lo ≤ p.hi) && decide (p.hi ≤ p.postHi) && decide (p.postHi = n)
+  | pos, p :: q :: r => decide (p.preLo = pos) && decide (p.preLo ≤ p.lo) && decide (p.lo ≤ p.hi) && decide (p.postHi = p.hi) && tiles n p.hi (q :: r)
+
+/-- for a well-formed line match, formatting must succeed and tile the line -/
+def checkFormat (n : Nat) (frags : List Frag) (out : Option (List Piece)) : Bool :=
+  !fragsWF n 0 frags ||
+  match out with
+  | none => false
+  | some ps => tiles n 0 ps && decide (ps.length = frags.length)
+
 end ZoektModel.C36
